@@ -48,15 +48,17 @@ def check_solution(case, x, y0, Y, objval, kind):
                 if msg:
                     return ('row:%s:%s' % (con['sense'], '+'.join(rosets.families_of(s))), msg), active, labels
     o = case['obj']
-    orow = romodel.obj_row(case)
-    if o['kind'] == 'minmax':
-        msg = test(orow, case['sets'][0], 1.0, objval, 'reported worst-case objective')
-        if msg:
-            return ('obj:minmax:' + '+'.join(rosets.families_of(case['sets'][0])), msg), active, labels
-    elif o['kind'] == 'maxmin':
-        msg = test(orow, case['sets'][0], -1.0, -objval, 'reported worst-case objective (maxmin)')
-        if msg:
-            return ('obj:maxmin:' + '+'.join(rosets.families_of(case['sets'][0])), msg), active, labels
+    if o.get('extra'):
+        labels.append('piecewise_objective')
+    for orow in romodel.obj_rows(case):
+        if o['kind'] == 'minmax':
+            msg = test(orow, case['sets'][0], 1.0, objval, 'reported worst-case objective')
+            if msg:
+                return ('obj:minmax:' + '+'.join(rosets.families_of(case['sets'][0])), msg), active, labels
+        elif o['kind'] == 'maxmin':
+            msg = test(orow, case['sets'][0], -1.0, -objval, 'reported worst-case objective (maxmin)')
+            if msg:
+                return ('obj:maxmin:' + '+'.join(rosets.families_of(case['sets'][0])), msg), active, labels
     # cheap extra witnesses: sampled members
     for ci, con in enumerate(case['cons']):
         s = case['sets'][con['set'] if con['set'] is not None else 0]
